@@ -28,6 +28,8 @@ var X = 7
 
 const C = 5
 
+const Idx = 1
+
 var PI = &X
 var PV = &V
 var Arr = [3]int{4, 5, 6}
@@ -54,7 +56,7 @@ var JV J = jimpl{}
 var EV interface{} = 5
 `
 
-var c13EnvApp = strings.NewReplacer("11", "111", `"vb"`, `"avb"`, "X = 7", "X = 70", "lib-default", "app-default", "{A: 21}", "{A: 210}", "A: 31", "A: 310", "{4, 5, 6}", "{40, 50, 60}", "{7, 8, 9, 10}", "{70, 80, 90, 100}", `"a": 1`, `"a": 10`).Replace(c13EnvLib)
+var c13EnvApp = strings.NewReplacer("C = 5", "C = 6", "Idx = 1", "Idx = 2", "11", "111", `"vb"`, `"avb"`, "X = 7", "X = 70", "lib-default", "app-default", "{A: 21}", "{A: 210}", "A: 31", "A: 310", "{4, 5, 6}", "{40, 50, 60}", "{7, 8, 9, 10}", "{70, 80, 90, 100}", `"a": 1`, `"a": 10`).Replace(c13EnvLib)
 
 type c13gen struct {
 	t       *rapid.T
@@ -181,9 +183,12 @@ func (g *c13gen) expr(ty string, depth int) string {
 		if leaf && !force {
 			return g.pick([]string{"Sl", "Sl[1:]", "Sl[:2]", "Arr[:]", "Sl[0:1:2]", "V.S"}, "slleaf")
 		}
-		switch g.pick([]string{"lit", "keyed", "reslice"}, "slice") {
+		switch g.pick([]string{"lit", "keyed", "reslice", "idkeyed"}, "slice") {
 		case "keyed":
 			return "[]int{1: " + g.expr("int", depth+1) + "}"
+		case "idkeyed":
+			// the key is a package-level constant of the expression's home package
+			return "[]int{" + g.pick([]string{"C", "Idx", "(Idx)", "Idx + 1"}, "slicekey") + ": " + g.expr("int", depth+1) + "}"
 		case "reslice":
 			return "[]int{" + g.expr("int", depth+1) + ", 2, 3}[1:]"
 		}
@@ -192,10 +197,17 @@ func (g *c13gen) expr(ty string, depth int) string {
 		if leaf && !force {
 			return g.pick([]string{"Mp", "V.MM"}, "mapleaf")
 		}
+		if g.pct(40) {
+			// keys that are package-level names of the home package
+			return "map[string]int{" + g.pick([]string{"Default", "V.B", "(Default)", `Default + "x"`}, "mapkey") + ": " + g.expr("int", depth+1) + `, "fixed": 2}`
+		}
 		return `map[string]int{"q": ` + g.expr("int", depth+1) + "}"
 	case "array":
 		if leaf && !force {
 			return "Arr"
+		}
+		if g.pct(40) {
+			return "[3]int{Idx: " + g.expr("int", depth+1) + "}"
 		}
 		return "[3]int{" + g.expr("int", depth+1) + ", 2, 3}"
 	case "N":
@@ -212,6 +224,9 @@ func (g *c13gen) expr(ty string, depth int) string {
 		}
 		return "[]T{{A: " + g.expr("int", depth+1) + "}, {A: 2, B: \"two\"}}"
 	case "tmap":
+		if g.pct(40) {
+			return "map[string]T{Default: {A: " + g.expr("int", depth+1) + "}, \"z\": {}}"
+		}
 		return "map[string]T{\"k\": {A: " + g.expr("int", depth+1) + "}, \"z\": {}}"
 	case "pslice":
 		return g.pick([]string{"&Sl", "&[]int{1, 2}"}, "pslice")
@@ -459,18 +474,6 @@ func c13UsesEnv(expr string) bool {
 				return true
 			})
 			return false
-		case *ast.KeyValueExpr:
-			// struct field keys are not references; map keys would be, and are
-			// visited through the generic case when they are not identifiers
-			if _, ok := n.Key.(*ast.Ident); ok {
-				ast.Inspect(n.Value, func(m ast.Node) bool {
-					if id, ok := m.(*ast.Ident); ok && c13EnvNames[id.Name] {
-						uses = true
-					}
-					return true
-				})
-				return false
-			}
 		case *ast.Ident:
 			if c13EnvNames[n.Name] {
 				uses = true
